@@ -16,21 +16,15 @@ def _warmup():
     bempp_cl.api.Grid(np.array([[0.0, 1, 0], [0, 0, 1], [0, 0, 0]]), np.array([[0], [1], [2]], dtype="uint32"))
 
 
-def main():
-    prop, spec_file, out_file = sys.argv[1:4]
-    spec = json.load(open(spec_file))
+def _run_one(mod, spec, pbt, t_start):
+    """Run one shard spec (after the process-wide warm-up); returns its result dict."""
     t0 = time.time()
     out = {"spec": spec, "status": "ok"}
     try:
-        from vlib import pbt
-
-        mod = importlib.import_module("props." + prop.lower())
         stats = pbt.Stats()
         if hasattr(mod, "setup"):
             mod.setup(spec)
-        if not getattr(mod, "NO_BEMPP_WARMUP", False):
-            _warmup()
-        out["setup_s"] = time.time() - t0
+        out["setup_s"] = time.time() - t_start
         # the budget clock starts after import/JIT warm-up
         deadline = time.time() + float(spec.get("budget_s", 1e9))
         if "replay" in spec:
@@ -61,6 +55,34 @@ def main():
             if extra:
                 out["extra"] = extra
         out.update(stats.as_dict())
+    except BaseException as exc:  # noqa: BLE001
+        out["status"] = "harness_error"
+        out["error"] = "".join(traceback.format_exception(type(exc), exc, exc.__traceback__))[-4000:]
+    out["wall_s"] = time.time() - t0
+    return out
+
+
+def main():
+    prop, spec_file, out_file = sys.argv[1:4]
+    spec = json.load(open(spec_file))
+    t0 = time.time()
+    multi = spec.get("multi")
+    out = {"spec": spec, "status": "ok"}
+    try:
+        from vlib import pbt
+
+        mod = importlib.import_module("props." + prop.lower())
+        if not getattr(mod, "NO_BEMPP_WARMUP", False):
+            _warmup()
+        if multi is None:
+            out = _run_one(mod, spec, pbt, t0)
+        else:
+            # several shard specs run one after the other in this interpreter (they share the import and the JIT-compiled code)
+            out["results"] = []
+            for sp in multi:
+                out["results"].append(_run_one(mod, sp, pbt, time.time()))
+                with open(out_file + ".partial", "w") as f:
+                    json.dump(out, f, default=str)
     except BaseException as exc:  # noqa: BLE001
         out["status"] = "harness_error"
         out["error"] = "".join(traceback.format_exception(type(exc), exc, exc.__traceback__))[-4000:]
